@@ -357,8 +357,24 @@ def san_summary(err):
     return kind, frames
 
 
+_TSAN_SKIP = ("memset", "memcpy", "operator new", "operator delete", "malloc", "free", "std::__atomic_base",
+              "std::atomic", "std::__invoke", "std::thread", "decltype", "void std::", "std::_")
+
+
+def _tsan_frame_fn(line):
+    m = re.match(r"^\s+#\d+ (.*)$", line)
+    if not m:
+        return None
+    t = m.group(1)
+    t = re.sub(r"\s+\(BuildId: [0-9a-f]+\)\s*$", "", t)
+    t = re.sub(r"\s+\([^()\s]*\+0x[0-9a-f]+\)\s*$", "", t)
+    t = re.sub(r"\s+(<null>|/\S+)$", "", t)
+    return _clean_fn(t)
+
+
 def tsan_reports(err):
-    """Split TSan output into report blocks; return list of (kind, key, text)."""
+    """Split TSan output into report blocks; return list of (kind, key, text).
+    key = first 3 interesting frames of each of the two stacks involved."""
     blocks = re.split(r"(?m)^={18}\n", err)
     out = []
     for b in blocks:
@@ -366,14 +382,28 @@ def tsan_reports(err):
         if not m:
             continue
         kind = m.group(1).strip().replace(" ", "-")
-        # stacks: take first frame group of the two accesses
-        stacks = re.split(r"\n\s*\n", b)
+        stacks = []
+        cur = None
+        for ln in b.split("\n"):
+            if re.match(r"^  \S", ln):  # a section header ("  Write of size ...", "  Previous ...", "  Thread T1 ...")
+                if cur:
+                    stacks.append(cur)
+                cur = [ln.strip(), []]
+                continue
+            f = _tsan_frame_fn(ln)
+            if f is not None and cur is not None:
+                if not any(f.startswith(x) for x in _TSAN_SKIP) and f:
+                    cur[1].append(f)
+        if cur:
+            stacks.append(cur)
         tops = []
-        for s in stacks[:3]:
-            fr = [_clean_fn(x) for x in _FRAME.findall(s)][:3]
-            if fr:
-                tops.append(">".join(fr))
-        out.append((kind, "|".join(tops[:2]), b))
+        for hdr, frames in stacks:
+            if hdr.startswith("Thread ") or hdr.startswith("Location") or hdr.startswith("Mutex"):
+                continue
+            tops.append(">".join(frames[:3]))
+            if len(tops) == 2:
+                break
+        out.append((kind, "|".join(sorted(tops)), b))
     return out
 
 
